@@ -730,6 +730,7 @@ def main():
     ap.add_argument('--repo', default='/repo')
     ap.add_argument('--out', required=True)
     ap.add_argument('--report', required=True)
+    ap.add_argument('--fallback', default=os.path.join(os.path.dirname(os.path.abspath(__file__)), 'Tables.committed.v'))
     ap.add_argument('--shape', default=os.path.join(os.path.dirname(os.path.abspath(__file__)), 'engine_shape.json'))
     ap.add_argument('--write-shape', action='store_true', help='record the engine function hashes of the current tree')
     a = ap.parse_args()
@@ -778,6 +779,14 @@ def main():
                                     'entry_point_shape_ok': mod_ok,
                                     'rows': sum(len(r) for _, r, _ in lt['arms']) if lt else None,
                                     'notes': notes[n0:]}
+        if not good and a.fallback and os.path.exists(a.fallback):
+            fb = open(a.fallback).read()
+            mfb = re.search(r'\(\* ---- eval_%s ---- \*\)\n(.*?)(?=\(\* ---- )' % ev, fb, re.S)
+            if mfb:
+                out.append('(* ---- eval_%s ---- *)' % ev)
+                out.append('(* NOT regenerated: committed copy (see translate report) *)')
+                out.append(mfb.group(1))
+                report['evaluators'][ev]['fallback'] = True
         if good:
             out.append('(* ---- eval_%s ---- *)' % ev)
             out.append(emit_lextab(ev, lt, sup))
